@@ -4,7 +4,7 @@ CONSTANTS
   Users = {"me", "a", "b"}
   Me = "me"
   Texts = {"t1", "t2"}
-  Vals = {1, 2}
+  Vals = {0, 1}
   UserSets <- C_UserSetsSmall
   Owners <- C_OwnersSmall
   OpSets <- C_OpSetsSmall
